@@ -354,6 +354,9 @@ def normalize_url(
         ]
 
     # Dropping fragment if it's not routing
+    # NOTE: whether it is routing is judged on its unescaped form ("%2Fa" is "/a")
+    fragment = safely_unquote_fragment(fragment)
+
     if fragment and strip_fragment:
         if strip_fragment is True or not should_strip_fragment(fragment):
             fragment = ""
@@ -414,8 +417,6 @@ def normalize_url(
         qsl = sorted(qsl, key=qsl_sort_key)
 
     query = safe_serialize_qsl(qsl)
-
-    fragment = safely_unquote_fragment(fragment)
 
     if quoted:
         fragment = safely_quote(fragment)
